@@ -9,6 +9,19 @@ optimised and unoptimised answers must be equal (otherwise infrastructure error 
 would contradict the proved theorem), and a command classified as known finding D2/D3/D5 must lie OUTSIDE
 `OptSafe` and meet the hazard of that name; if not, `classify` returns `OPTSAFE-CONTRADICTION`, which is not
 a listed finding and is therefore reported as VIOLATION.
+
+Mutation sanity check (scratch copies of hypatia/query/__init__.py, quick tier, seed 0; all reported VIOLATION):
+  M1 And loop: `del lowers[query.index]` removed (D4 re-introduced)        -> failing inputs (wrong id sets)
+  M2 Or loop:  `del lowers[query.index]` removed (D4 in Or)                -> failing inputs
+  M3 Or pairing builds NotInRange without flipping the strictness of the bounds -> failing input
+     (`And(Or(Ge 3, Le 3), ...)` on a one-document index) after two shape drifts
+  M4 `_optimize_eq` drops the `query.index != index` test (folds across indexes) -> failing inputs
+  M5 `Not._optimize` forgets `negate()`                                   -> failing inputs
+  M6 `_Range.fromGTLT` treats `Le` as exclusive end                       -> failing inputs
+  M7 And loop: `del uppers[query.index]` removed, M8 Or loop refuses to pair when `a > b`: both are
+     semantics-preserving (a stale `uppers` entry is re-paired onto a fresh position and loses nothing) –
+     correctly reported as shape drift only (`no-failing-input-found`), no failing input exists.
+A sabotaged hazard report (D5 hidden from `optsafe`) is caught as OPTSAFE-CONTRADICTION.
 """
 from lib import qtree
 from lib.core import exc_name, Infra, split_ms
@@ -30,10 +43,13 @@ RULE = ("catalogs of 1-4 real indexes with 0-25 documents, with and without no-v
         "shape is compared with the model's optimiser output, and the original query object is snapshotted "
         "(structure and object identities) before/after optimisation. non-trivial = the optimiser changed the "
         "tree and the unoptimised answer is a non-empty set")
-LEVEL_TEXT = ("Lean 4 theorems about the model of _optimize (Eq/NotEq folding, the repaired lowers/uppers pairing "
-              "loop, single-child collapse, Not pushed through negate): optimisation preserves the result set "
-              "under the stated hypotheses (outside the three recorded findings); the optimiser model is tied to "
-              "hypatia/query by comparing optimised tree shapes and results on real catalogs")
+LEVEL_TEXT = ("Lean 4 whole-tree theorem about the model of _optimize (Eq/NotEq folding, the repaired lowers/uppers "
+              "pairing loop with its loop invariant, single-child collapse, re-construction through the "
+              "flattening constructor, Not pushed through negate): for every catalog and every well-typed tree of "
+              "any arity and depth, optimisation preserves success and the result set under the decidable "
+              "hypothesis OptSafe, which excludes exactly the three recorded findings D2/D3/D5 (each with a "
+              "proved counterexample); the optimiser model is tied to hypatia/query by comparing optimised tree "
+              "shapes and results on real catalogs, and OptSafe is evaluated on every generated tree")
 LEVEL_NOTE = ("leaves answered at specification level; known findings D2, D3, D5 are mirrored by the model and "
               "reported as KNOWN-FINDING; trusted: Lean kernel, sampled correspondence, harness")
 TECHNIQUE = "Lean 4 proof over the optimiser model (loop invariant, induction on the tree) + differential correspondence"
